@@ -16,8 +16,9 @@ and expression normal forms from rkstatic/x_symnf.py):
            compiler-generated copy / move operation.
   R-C11-4  AbstractArray: at() dereferences only under `offset < size()` and throws otherwise; operator[],
            begin/end/data/size/cbegin/cend/operator bool/operator T* and setPtr agree on (ptr, numItems).
-  R-C11-5  DataView::operator[] is `*(const T*)(ptr + index*stride)` with ptr of byte type; constructor and
-           reset store both arguments.
+  R-C11-5  DataView::operator[] is `*(const T*)(ptr + index*stride)` with ptr of byte type on every returning
+           path - the result is a reference into the viewed storage, never to a member of the view (scratch /
+           cache slot); constructor and reset store both arguments.  Extra members are tolerated.
   R-C11-6  extent agreement: the view size equals the owner's size (vector: size(); new T[n]: n), memcpy
            into the allocation has length n*sizeof(T), a non-null source test guards it, an owning
            array constructed / assigned from a source copies the whole source range, and the copy goes into a block
@@ -51,6 +52,7 @@ SETPTR = ABS + '::setPtr'
 MUT_EMPTY = {'clear'}
 MUT_KNOWN = {'operator=', 'assign', 'resize', 'reserve', 'shrink_to_fit', 'push_back', 'emplace_back', 'insert',
              'emplace', 'erase', 'pop_back', 'swap', 'reset', 'clear'}
+INT_TYPES = {'unsigned long', 'unsigned int', 'unsigned long long', 'long', 'int', 'long long', 'unsigned short', 'short'}
 BYTE_PTR = {'const unsigned char *', 'unsigned char *', 'const char *', 'char *', 'const std::byte *', 'std::byte *',
             'const signed char *', 'signed char *'}
 
@@ -1042,19 +1044,46 @@ def check_abstract(ctx, tu, tag=''):
 # ============================================================================================
 def check_dataview(ctx, tu, tag=''):
     R5 = 'R-C11-5'
-    ctx.describe(R5, 'DataView::operator[](i) is *(const T*)(ptr + i*stride) with ptr of byte type; the constructor and reset store '
-                     '(data, stride)')
+    ctx.describe(R5, 'DataView::operator[](i) is *(const T*)(ptr + i*stride) with ptr of byte type on every returning path (a reference into '
+                     'the viewed storage, never to a member of the view); the constructor and reset store (data, stride)')
     se = mk_se(tu)
     n = 0
     for r in sorted((r for r in tu.records.values() if r.get('tmpl') == DATAVIEW), key=lambda r: r['type']):
+        # the viewed pointer and the stride: the pointer member and the integer member (other members - caches, scratch
+        # storage - are tolerated); with several candidates, the members the (data, stride) constructor stores its arguments in
         pf = [f for f in r['fields'] if f['ct'].endswith('*')]
-        sf = [f for f in r['fields'] if not f['ct'].endswith('*')]
+        if len(pf) > 1 and len([f for f in pf if f['ct'] in BYTE_PTR]) == 1:
+            pf = [f for f in pf if f['ct'] in BYTE_PTR]
+        sf = [f for f in r['fields'] if f['ct'] in INT_TYPES]
         inst0 = short(r['type']) + tag
         file = rec_file(tu, r)
-        if len(pf) != 1 or len(sf) != 1:
-            ctx.broken('R-C11-5: %s does not have exactly one pointer and one stride member' % r['type'])
-            continue
         this = ('this',)
+        if len(pf) != 1 or len(sf) != 1:
+            got = {}
+            for f in tu.functions.values():
+                if f.get('recid') == r['id'] and f.get('ctor') == 'other' and len(f.get('params', [])) == 2 and tu.cfg(f) is not None:
+                    try:
+                        for p in se.paths(f):
+                            for e in p.events:
+                                if e.kind in ('store', 'init') and e.place is not None and e.place[:2] == ('field', this):
+                                    v = unver(e.value)
+                                    if isinstance(v, tuple) and v and v[0] == 'cast':
+                                        v = v[2]
+                                    if isinstance(v, tuple) and v and v[0] == 'param':
+                                        got.setdefault(v[1], set()).add(e.place[2])
+                    except Unsupported:
+                        pass
+            if len(got.get(0, ())) == 1 and len(got.get(1, ())) == 1:
+                pn, sn = list(got[0])[0], list(got[1])[0]
+                pf = [f for f in r['fields'] if f['name'] == pn]
+                sf = [f for f in r['fields'] if f['name'] == sn]
+        if len(pf) != 1 or len(sf) != 1:
+            if not pf or not sf:
+                ctx.broken('R-C11-5: %s has no pointer member / no integer stride member' % r['type'])
+            else:
+                ctx.undecided(R5, inst0, 'cannot tell which of the members %s / %s are the viewed pointer and the stride'
+                              % ([f['name'] for f in pf], [f['name'] for f in sf]), file)
+            continue
         ptr = ('field', this, pf[0]['name'])
         stride = ('field', this, sf[0]['name'])
         et = (r.get('targs') or [{}])[0]
@@ -1096,7 +1125,19 @@ def check_dataview(ctx, tu, tag=''):
                     # recognised wrong forms
                     why = None
                     kind = None
-                    if rv is not None:
+                    own_members = [x for x in find_all(rv, lambda t: t[0] == 'addr' and isinstance(t[1], tuple) and t[1][:2] == ('field', this))] \
+                        if rv is not None else []
+                    if isinstance(rv, tuple) and rv[:2] == ('field', this) and rv not in (ptr, stride):
+                        own_members = [('addr', rv)]       # `return member;` binds the returned reference to the member itself
+                    if own_members and not contains(rv, ptr):
+                        m = own_members[0][1][2]
+                        kind = 'reference-to-view-member'
+                        conds = ', '.join('%s is %s' % (show(c), pol) for c, pol, _ in p.conds) or 'always'
+                        why = ('on the path [%s] operator[] returns a reference to the view\'s own member `%s` (`%s`), not to the element at '
+                               'ptr + index*stride: the result is a snapshot in one slot shared by all indices - its address is not the '
+                               'element\'s, two elements used together are the same object, later changes of the source are not seen'
+                               % (conds, m, show(rv)))
+                    if rv is not None and why is None:
                         casts = find_all(rv, lambda t: t[0] == 'cast')
                         adds = find_all(rv, lambda t: t[0] == 'add')
                         uses_stride = contains(rv, stride)
